@@ -341,6 +341,55 @@ def check_modifications(repo, rep):
                     rep.violation(rid, f"modify|{kind}|in-place", f"{key}: the declaration was changed to {kind}_new, went through one pass, and was then changed in place to {kind}_new2; "
                                   f"active {kind} orders are now {[describe(o) for o in act]} - expected exactly one at {kind}_new2 (a stale exit survives the modification)")
                 rep.instance(rid, key, {"case": key, "orders": {o.name: describe(o) for o in allo}})
+    # a two-row declaration re-declared with the same quantities and the same prices PAIRED differently: every old row is gone, so both
+    # resting orders are replaced (a row-insensitive comparison - columns sorted or matched independently - sees no change)
+    for ptype, sg in (("long", 1), ("short", -1)):
+        for kind in ("sl", "tp"):
+            def mk(dec, sg=sg, kind=kind):
+                it = Interp(repo, stubs=W.base_stubs(), samples=[{k: (2 * CUR - v if sg < 0 and k.startswith(("sl_", "tp_")) else v) for k, v in smp.items()}],
+                            nonneg=set(smp), decisions=dec)
+                w = build(repo, it, sg)
+                st = w["strat"]
+                exit_side = S["sell"] if sg > 0 else S["buy"]
+                sgn = -1 if sg > 0 else 1
+                qa, qb = A("q") - A("q2"), A("q2")
+                pa, pb = A(f"{kind}_new"), A(f"{kind}_new2")
+                typ_ = T["STOP"] if kind == "sl" else T["LIMIT"]
+                olds = [W.make_order(repo, "OLD_A", exit_side, typ_, R.const(sgn) * qa, pa, reduce_only=True, status=ACTIVE, extra={"submitted_via": SV[kind]}),
+                        W.make_order(repo, "OLD_B", exit_side, typ_, R.const(sgn) * qb, pb, reduce_only=True, status=ACTIVE, extra={"submitted_via": SV[kind]})]
+                for o in olds:
+                    w["orders"].attrs["storage"][KEY].append(o)
+                    w["orders"].attrs["active_storage"][KEY].append(o)
+                row = lambda *r: Arr2([Arr(list(x)) for x in r])
+                attr = "stop_loss" if kind == "sl" else "take_profit"
+                other = "take_profit" if kind == "sl" else "stop_loss"
+                st.attrs["_" + attr] = row((qa, pa), (qb, pb))
+                st.attrs[attr] = [(qb, pa), (qa, pb)]
+                st.attrs["_" + other] = None
+                st.attrs[other] = None
+                ent = row((A("P"), A("E")))
+                st.attrs["buy" if sg > 0 else "sell"] = ent
+                st.attrs["_buy" if sg > 0 else "_sell"] = Arr2([Arr(list(r.items)) for r in ent.rows])
+                return it, lambda it: it.call(it.getattr(st, "_detect_and_handle_entry_and_exit_modifications"), [], {})
+            try:
+                outs = explore(mk, 64)
+            except NotInFragment as e:
+                rep.undecided_item(f"C10-R5 {ptype} {kind} re-paired rows: {e}")
+                continue
+            for out in outs:
+                key = f"{ptype}|{kind}|rows-re-paired"
+                if out.kind != "return":
+                    rep.undecided_item(f"C10-R5 {key}: raises {out.value!r}")
+                    continue
+                allo = submitted(out.interp.w)
+                act = [o for o in allo if o.attrs.get("submitted_via") == SV[kind] and o.attrs["status"] == ACTIVE]
+                got = sorted((repr(o.attrs.get("qty")), repr(o.attrs.get("price"))) for o in act)
+                sgn = -1 if sg > 0 else 1
+                want = sorted([(repr(R.const(sgn) * A("q2")), repr(A(f"{kind}_new"))), (repr(R.const(sgn) * (A("q") - A("q2"))), repr(A(f"{kind}_new2")))])
+                if got != want:
+                    rep.violation(rid, f"modify|{kind}|rows-re-paired", f"{key}: declared [(q - q2, {kind}_new), (q2, {kind}_new2)] -> [(q2, {kind}_new), (q - q2, {kind}_new2)]: the active {kind} orders "
+                                  f"are now {got}, expected exactly the two new rows {want} (a stale exit survives, or a new row is missing)")
+                rep.instance(rid, key, {"active": got})
     rep.floor(rid, 12)
 
 
